@@ -31,7 +31,8 @@ ASSUMPTIONS = [
 MIN_NONTRIVIAL = {'quick': 1500, 'thorough': 40000}
 REQUIRED_MONITORS = ['boundary:PLSSDesc', 'roundtrip:pretty_desc',
                      'hook:deduce_layout', 'hook:populate_markers',
-                     'hook:_stage_new_tract']
+                     'hook:_stage_new_tract',
+                     'numlead']
 EXHAUSTIVE_SUBSPACES = {
     'thorough': ["4 layouts x 6 Twp/Rge spellings x 6 section words x 5 "
                  "separators on a fixed 2x2 skeleton"],
@@ -105,6 +106,41 @@ def check_case(case, ctx, rec, pytrs):
                           dedup=layout)
 
 
+def check_numlead(rng, ctx, pytrs):
+    """
+    One Twp/Rge, one section, and a description block that begins with a
+    number: 'T154N-R97W Sec 14: 40 acres in the NE/4'. Expected: one tract,
+    the block verbatim. Recorded finding: the number is read as one more item
+    of the section list (':' counts as a list separator) -- the evidence is
+    the exact shape [(sec, rest), (number, rest)] of the result.
+    """
+    tr = G.gen_twprge(rng, True)
+    a = rng.randint(1, 99)
+    n = rng.choice([x for x in range(1, 100) if x != a])
+    rest = rng.choice(['acres in the NE/4', 'acres, more or less',
+                       'foot strip along the fence',
+                       'acres, being Lots 1 and 2'])
+    blk = f"{n} {rest}"
+    word = rng.choice(G.SEC_WORDS)
+    text = (f"{G.render_twprge(tr, rng.choice(G.TWPRGE_SPELLINGS))}"
+            f"{rng.choice([' ', ', ', chr(10)])}{word} {a}: {blk}")
+    short = G.short_twprge(tr)
+    exp = [[f"{short}{a:02d}", blk]]
+    case = {'numlead': True, 'text': text, 'expected': exp}
+    ctx.case([text, 'numlead'], True, shape='numlead|TRS_desc',
+             sample={'text': text, 'expected': exp})
+    ctx.hit('numlead')
+    with ctx.guard(case):
+        d = pytrs.PLSSDesc(text)
+        got = [[t.trs, t.desc] for t in d.tracts]
+        if got != exp or d.e_flags:
+            joined = (got == [[f"{short}{a:02d}", rest],
+                              [f"{short}{n:02d}", rest]] and not d.e_flags)
+            ctx.violation('tracts-differ', case,
+                          f"expected {exp} got {got} (e_flags {d.e_flags})",
+                          dedup=f"numlead|{joined}", numlead_joined=joined)
+
+
 def _skeleton_cases(seps):
     trs = [(154, 'n', 97, 'w'), (7, 's', 2, 'e')]
     blocks = [['NE/4', 'Lots 1 - 3, S/2NW/4'], ['That part lying above the river', 'ALL']]
@@ -158,13 +194,31 @@ def run_shard(shard, ctx):
         return
     rng = ctx.rng('random', shard['i'])
     for _ in range(shard['n']):
-        case = G.gen_case(rng)
-        check_case(case, ctx, rec, pytrs)
+        if rng.random() < 0.03:
+            check_numlead(rng, ctx, pytrs)
+            continue
+        check_case(G.gen_case(rng), ctx, rec, pytrs)
 
 
 def replay(case, ctx):
     pytrs, rec = _setup(ctx)
+    if case.get('numlead'):
+        d = pytrs.PLSSDesc(case['text'])
+        got = [[t.trs, t.desc] for t in d.tracts]
+        ctx.case([case['text'], 'numlead'], True, shape='numlead|TRS_desc')
+        ctx.hit('numlead')
+        if got != case['expected'] or d.e_flags:
+            ctx.violation('tracts-differ', case,
+                          f"expected {case['expected']} got {got}")
+        return
     check_case(case, ctx, rec, pytrs)
+
+
+def classify(v):
+    """'number-leading-block-joins-section-list': see check_numlead."""
+    if v.get('kind') == 'tracts-differ' and v.get('numlead_joined'):
+        return 'number-leading-block-joins-section-list'
+    return None
 
 
 MANIFEST_TEXT = (
